@@ -219,14 +219,22 @@ pub fn add_probe_members(g: &mut GenIdl, rng: &mut Rng) {
     g.idl.members.push(Member { kind: MKind::Method, name: "ProbeShapes".into(), comments: vec![], a: Ty::Struct(shapes.clone()), b: Some(Ty::Struct(shapes)) });
     let opts = vec![("limit".to_string(), Ty::Opt(Box::new(Ty::Int))), ("filter".to_string(), Ty::Opt(Box::new(Ty::Str))), ("flags".to_string(), Ty::Opt(Box::new(Ty::Array(Box::new(Ty::Bool)))))];
     g.idl.members.push(Member { kind: MKind::Method, name: "ProbeAllOptional".into(), comments: vec![], a: Ty::Struct(opts), b: Some(Ty::Struct(vec![("n".into(), Ty::Int)])) });
-    g.idl.members.push(Member { kind: MKind::Error, name: "ErrA".into(), comments: vec![], a: Ty::Struct(vec![("why".into(), Ty::Str)]), b: None });
-    g.idl.members.push(Member { kind: MKind::Error, name: "ErrB".into(), comments: vec![], a: Ty::Struct(vec![("code".into(), Ty::Int), ("why".into(), Ty::Opt(Box::new(Ty::Str)))]), b: None });
+    let mut errs = vec![
+        Member { kind: MKind::Error, name: "ErrA".into(), comments: vec![], a: Ty::Struct(vec![("why".into(), Ty::Str)]), b: None },
+        Member { kind: MKind::Error, name: "ErrB".into(), comments: vec![], a: Ty::Struct(vec![("code".into(), Ty::Int), ("why".into(), Ty::Opt(Box::new(Ty::Str)))]), b: None },
+    ];
     // declared errors whose member name equals one of org.varlink.service's: an error is
     // identified by its full name, so these must arrive as their own variants
     if !has(g, "InterfaceNotFound") && !has(g, "MethodNotImplemented") {
-        g.idl.members.push(Member { kind: MKind::Error, name: "InterfaceNotFound".into(), comments: vec![], a: Ty::Struct(vec![("hint".into(), Ty::Opt(Box::new(Ty::Str)))]), b: None });
-        g.idl.members.push(Member { kind: MKind::Error, name: "MethodNotImplemented".into(), comments: vec![], a: Ty::Struct(vec![("why".into(), Ty::Str)]), b: None });
+        errs.push(Member { kind: MKind::Error, name: "InterfaceNotFound".into(), comments: vec![], a: Ty::Struct(vec![("hint".into(), Ty::Opt(Box::new(Ty::Str)))]), b: None });
+        errs.push(Member { kind: MKind::Error, name: "MethodNotImplemented".into(), comments: vec![], a: Ty::Struct(vec![("why".into(), Ty::Str)]), b: None });
     }
+    // in any order (which error is declared first / last must not matter)
+    for i in (1..errs.len()).rev() {
+        let j = rng.below(i + 1);
+        errs.swap(i, j);
+    }
+    g.idl.members.extend(errs);
     let level = rng.below(2);
     g.text = render(&g.idl, rng, level);
 }
